@@ -112,7 +112,7 @@ def _chain(pid, req, t3=None):
     if t3:
         PROPS[pid]["t3"] = t3
 
-_chain("C03", ["ante_accept_sound", "wrong_key_rejected", "mutation_rejected", "low_fee_rejected", "fee_from_signer"])
+_chain("C03", ["ante_accept_sound", "wrong_key_rejected", "mutation_rejected", "low_fee_rejected", "fee_from_signer", "sig_limit_enforced", "sig_limit_within"])
 _chain("C11", ["reject_frame", "readonly_frame", "undecodable_frame", "accept_shape"])
 _chain("C17", ["param_change_authorised", "change_only_that_key", "dao_authorised", "gov_unauthorised_rejected", "block_ops_keep_gov", "gov_change_authorised", "gov_run", "acl_handover", "acl_drop", "acl_replace", "acl_undecodable", "upgrade_sets_plan"])
 
@@ -178,7 +178,7 @@ PROPS["C01"] = {
 
 PROPS["C19"] = {
     "lean_modules": ["Posmint.Props.C19"], "namespaces": ["Posmint.Props.C19"],
-    "required_theorems": ["Posmint.Props.C19." + t for t in ("leaf_verify_iff", "sign_verifies", "verify_iff", "multisig_iff", "verify_key_unique",
+    "required_theorems": ["Posmint.Props.C19." + t for t in ("validDepth_iff", "leaf_verify_iff", "sign_verifies", "verify_iff", "multisig_iff", "verify_key_unique",
                           "verify_msg_unique", "shape_mismatch_rejected", "length_mismatch_rejected", "kstep_refines", "kstep_sorted", "list_exact",
                           "wrong_pass_no_effect", "import_wrong_pass_no_effect", "import_existing_refused", "export_import_roundtrip",
                           "create_then_use", "delete_exact")],
